@@ -16,7 +16,7 @@ PROPS = {
         "trusted_base": [STDLIB, FSMODEL],
         "assumptions": ["dst is an absolute clean path whose own components are real directories; links already under dst are tidy and lexically inside (an empty destination satisfies this); no allow-list (with one, the allow-listed places are excluded from the oracle)",
                         "open finding F3 (a link target with '..' after a name): the frame theorem carries TidyLinks; such archives are judged by the oracle and reported as KNOWN-FINDING"],
-        "explanation": "C01_frame_partial: for every archive whose link targets are tidy, every fault position, every result (ok/illegal/io) and every privilege level, no path outside dst changes in the filesystem model (induction over the entry loop with the invariant RealDir & KeysPhysical & AllGood; per-syscall frame lemmas; resolution lemma resolve_under). C01_cex_write_through_link shows the TidyLinks hypothesis is needed on the unchanged code. Tie: 'unpack' and 'unpack-faults' lanes compare the whole arena (dst, prefix-sharing siblings, decoys, two levels of parents) between real Unpack and the model, and the oracle snapshots (type, mode, size, mtime, ctime, inode, content, target) outside dst before/after.",
+        "explanation": "C01_frame_partial: for every archive whose link targets are tidy, every fault position, every result (ok/illegal/io) and every privilege level, no path outside dst changes in the filesystem model (induction over the entry loop with the invariant RealDir & KeysPhysical & AllGood; per-syscall frame lemmas; resolution lemma resolve_under). C01_cex_write_through_link shows the TidyLinks hypothesis is needed on the unchanged code. Tie: 'unpack' and 'unpack-faults' lanes compare the whole arena (dst, prefix-sharing siblings, decoys, two levels of parents) between real Unpack and the model, and the oracle snapshots (type, mode, size, mtime, ctime, inode, content, target) outside dst before/after. Session 3: Props/C01t — isWithin and validSymlink of the model equal the Lean translations of the Go functions (regenerated on every run).",
     },
     "C04": {
         "lanes": [
@@ -24,7 +24,7 @@ PROPS = {
         ],
         "trusted_base": [STDLIB, FSMODEL],
         "assumptions": ["as C01; open finding F3 (TidyLinks). F12 (absolute in-dst targets were accepted) is repaired: C04_abs_target_refused / C04_unpack_ok_links_relative"],
-        "explanation": "C04_safe_after_unpack_partial: after Unpack (any result, any fault) every link under dst resolves, the way the kernel follows it through any chain of other links, to a place under dst; C04_allGood_safe (syntactic invariant implies physical safety), C04_links_inside_partial (the invariant is preserved), C04_reject / C04_accepted_is_lexically_inside (decision logic of validSymlink), isWithin_iff (the separator-aware containment test equals component-prefix containment). Absolute targets: C04_abs_target_refused, C04_abs_target_needs_allow, C04_accepted_target_relative, C04_unpack_ok_links_relative (an Unpack that succeeds without an allow-list created only relative links). Counterexamples C04_cex_dotdot_after_link (F3). Tie: 'unpack' lane; oracle resolves every link under dst physically with Lstat/Readlink.",
+        "explanation": "C04_safe_after_unpack_partial: after Unpack (any result, any fault) every link under dst resolves, the way the kernel follows it through any chain of other links, to a place under dst; C04_allGood_safe (syntactic invariant implies physical safety), C04_links_inside_partial (the invariant is preserved), C04_reject / C04_accepted_is_lexically_inside (decision logic of validSymlink), isWithin_iff (the separator-aware containment test equals component-prefix containment). Absolute targets: C04_abs_target_refused, C04_abs_target_needs_allow, C04_accepted_target_relative, C04_unpack_ok_links_relative (an Unpack that succeeds without an allow-list created only relative links). Counterexamples C04_cex_dotdot_after_link (F3). Tie: 'unpack' lane; oracle resolves every link under dst physically with Lstat/Readlink. Session 3: Props/C04t — validSymlink, allowedSymlinkTarget, isWithin of the model equal the Lean translations of the Go functions (regenerated on every run).",
     },
     "C12": {
         "lanes": [
@@ -36,7 +36,7 @@ PROPS = {
         ],
         "trusted_base": [STDLIB, FSMODEL, BUILDERMODEL],
         "assumptions": ["fault model of the reader: the stream fails (error or clean truncation) at a byte offset; fh.Close() errors inside Unpack cannot be injected through an io.Reader and are outside the property's fault model"],
-        "explanation": "Unpack part: C12_unpack_ok_complete (a run that reports success did everything the fault-free run does, for every fault position), C12_unpack_header_fault_reported, C12_unpack_body_fault_reported, C12_fault_never_illegal / C12_illegal_has_culprit (policy rejections are distinguishable and have a culprit entry). Tie: 'unpack-faults' lane cuts the tar stream at every position (mapped to the model's fault by decoding with archive/tar) and compares full filesystem dumps; gzip-level read errors/truncations are judged by the oracle (success => fully materialised). Pack part (Props/C12p over PackIO.lean): C12_pack_write_fault_reported — for every tree, option set and source, a writer failure surfacing at ANY write-side operation (header or body of any entry, tar close, gzip close) makes Pack return an error and no Meta; C12_pack_checks_extracted evaluates the regenerated fact Generated.ioErrChecks (each of tarW.WriteHeader, io.Copy(tarW,..), tarW.Close, gzipW.Close has one call site whose error is tested and returned), so a dropped or deferred check breaks the build; C12_cex_unchecked_gzclose shows which check is essential. Tie: extracted facts + pack-faults lane (writer failing at every byte offset of generated slugs).",
+        "explanation": "Unpack part: C12_unpack_ok_complete (a run that reports success did everything the fault-free run does, for every fault position), C12_unpack_header_fault_reported, C12_unpack_body_fault_reported, C12_fault_never_illegal / C12_illegal_has_culprit (policy rejections are distinguishable and have a culprit entry). Tie: 'unpack-faults' lane cuts the tar stream at every position (mapped to the model's fault by decoding with archive/tar) and compares full filesystem dumps; gzip-level read errors/truncations are judged by the oracle (success => fully materialised). Pack part (Props/C12p over PackIO.lean): C12_pack_write_fault_reported — for every tree, option set and source, a writer failure surfacing at ANY write-side operation (header or body of any entry, tar close, gzip close) makes Pack return an error and no Meta; C12_pack_checks_extracted evaluates the regenerated fact Generated.ioErrChecks (each of tarW.WriteHeader, io.Copy(tarW,..), tarW.Close, gzipW.Close has one call site whose error is tested and returned), so a dropped or deferred check breaks the build; C12_cex_unchecked_gzclose shows which check is essential. Tie: extracted facts + pack-faults lane (writer failing at every byte offset of generated slugs). Session 3 (builder lane): finder diagnostics raised vs delivered compared as multisets (severity, summary, expected name P//file) for the caller and the tracer, with finders that keep and reuse their range objects across packages.",
     },
     "C02": {
         "lanes": [
@@ -46,7 +46,7 @@ PROPS = {
         ],
         "trusted_base": [STDLIB, FSMODEL, "tar.Writer rounds ModTime to the nearest second under FormatUnknown (modelled as roundSec); PAX/USTAR encodings of long and non-ASCII names are exercised but not modelled below the entry level"],
         "assumptions": ["trees of regular files, directories and relative links that stay inside the tree without re-entering it by its own name (F37); special files are skipped; the round-trip oracle is applied without ignore rules and without dereferencing"],
-        "explanation": "Props/C02f (ignore processing ON): C02_roundtrip_filtered_partial and C02_roundtrip_kept_files (Pack with rules then Unpack into an empty directory: every file, link and directory whose own path the rules keep and no pruned directory hides is reproduced with content/target, mode and rounded mtime; paths above a kept entry whose own directory entry was excluded come back as implicit directories 0755/unpack time — C02_cex_excluded_dir_implicit; everything else is absent), C02_untar_filter, C02_pack_untar_filtered. The round trip is the composition of the Pack model and the Unpack model through the entry list: C20_meta / C05_bodies_from_fs / C05_link_entries_validated characterise what Pack emits (names, bodies, validated links), C15 theorems what Unpack makes of an entry list (C15_refines_partial when present: the destination is exactly the sequential reading), C16_spelling that the entry list does not depend on how the source is spelled. No single composed theorem is proved; the end-to-end statement is decided on every run by the 'pack' lane: real Pack -> real Unpack into an empty directory -> recursive comparison of relative paths, types, contents, permission bits, link targets and mtimes rounded to the second (incl. empty and read-only directories, mode 0000 files, .4/.5/.6 s fractions), next to the model comparison of both halves.",
+        "explanation": "Props/C02f (ignore processing ON): C02_roundtrip_filtered_partial and C02_roundtrip_kept_files (Pack with rules then Unpack into an empty directory: every file, link and directory whose own path the rules keep and no pruned directory hides is reproduced with content/target, mode and rounded mtime; paths above a kept entry whose own directory entry was excluded come back as implicit directories 0755/unpack time — C02_cex_excluded_dir_implicit; everything else is absent), C02_untar_filter, C02_pack_untar_filtered. The round trip is the composition of the Pack model and the Unpack model through the entry list: C20_meta / C05_bodies_from_fs / C05_link_entries_validated characterise what Pack emits (names, bodies, validated links), C15 theorems what Unpack makes of an entry list (C15_refines_partial when present: the destination is exactly the sequential reading), C16_spelling that the entry list does not depend on how the source is spelled. No single composed theorem is proved; the end-to-end statement is decided on every run by the 'pack' lane: real Pack -> real Unpack into an empty directory -> recursive comparison of relative paths, types, contents, permission bits, link targets and mtimes rounded to the second (incl. empty and read-only directories, mode 0000 files, .4/.5/.6 s fractions), next to the model comparison of both halves. Session 3: generated trees and archives carry edge modification times (0, 0.4 s, 1 s, 2^31-1, 2^31, 8^11 = first value beyond the ustar field), archives record access/change times that differ from the mtime (PAX and GNU formats); a umask-027 run of the unpack lane is judged by the oracles only.",
     },
     "C05": {
         "lanes": [
@@ -55,7 +55,7 @@ PROPS = {
         ],
         "trusted_base": [STDLIB, FSMODEL],
         "assumptions": ["open findings F13, F14 (links inside / nested dereferenced directories) and F37 (a link re-entering the source directory through its own name) are reported as KNOWN-FINDING; the 'Unpack accepts Pack's output' oracle is applied without allow-lists"],
-        "explanation": "C05_link_entries_validated (every link entry of the output was accepted by validSymlink at its on-disk path, for every tree and option set), C05_no_deref_illegal + C05_stop_propagates + C05_illegal_cause (without dereferencing an out-of-tree link makes Pack return illegal-slug, and illegal-slug has no other cause), C05_bodies_from_fs / C05_bodies_direct / C05_bodies_inside_partial (every file body is the content of a file of the tree; with dereferencing off, of a file lexically inside the source directory), C20_deref_header_body_may_differ (observation F38). Tie: 'pack' lane: model comparison of the full entry list + oracles: link entries read at their archive position, bodies vs files inside the source directory, and real Unpack run on every produced slug.",
+        "explanation": "C05_link_entries_validated (every link entry of the output was accepted by validSymlink at its on-disk path, for every tree and option set), C05_no_deref_illegal + C05_stop_propagates + C05_illegal_cause (without dereferencing an out-of-tree link makes Pack return illegal-slug, and illegal-slug has no other cause), C05_bodies_from_fs / C05_bodies_direct / C05_bodies_inside_partial (every file body is the content of a file of the tree; with dereferencing off, of a file lexically inside the source directory), C20_deref_header_body_may_differ (observation F38). Tie: 'pack' lane: model comparison of the full entry list + oracles: link entries read at their archive position, bodies vs files inside the source directory, and real Unpack run on every produced slug. Session 3: Props/C05t — validSymlink / allowedSymlinkTarget of the model equal the Lean translations of the Go methods (regenerated on every run). pack-spelling lane: overlapping package-level Pack calls with different dereference settings (gated writer) — a non-dereferencing call over an out-of-tree link must fail with an illegal-slug error whatever runs beside it.",
     },
     "C16": {
         "lanes": [
@@ -65,7 +65,7 @@ PROPS = {
         ],
         "trusted_base": [STDLIB, FSMODEL, "the process working directory is a parameter (cwd) of the model; data races between concurrent Pack calls cannot be exhibited by the model: covered by the -race supporting run (thorough) and by the repaired aliasing of the default rule list (F24, extracted fact: readRules copies the defaults)"],
         "assumptions": ["open findings F22, F23, F30 (root given as a relative link / chained link / 'link/') are reported as KNOWN-FINDING (closed counterexamples C16_cex_*)"],
-        "explanation": "C16_cwd_irrelevant (for an absolute clean source the result does not depend on the working directory), C16_spelling / C16_spelling_trailing_slash / C16_spelling_relative (spellings that denote the same directory give the same result: dot segments, '..' detours, trailing slash, relative to cwd), counterexamples for the three root-link findings. History independence holds by construction of the model (no state between calls) and is tied to the code by the 'ignore' lane's check that parsing never changes DefaultRuleset. Tie: 'pack-spelling' lane: twelve spellings/cwds of each tree + preceding parses + four concurrent Pack calls, compared with each other and with the model.",
+        "explanation": "C16_cwd_irrelevant (for an absolute clean source the result does not depend on the working directory), C16_spelling / C16_spelling_trailing_slash / C16_spelling_relative (spellings that denote the same directory give the same result: dot segments, '..' detours, trailing slash, relative to cwd), counterexamples for the three root-link findings. History independence holds by construction of the model (no state between calls) and is tied to the code by the 'ignore' lane's check that parsing never changes DefaultRuleset. Tie: 'pack-spelling' lane: twelve spellings/cwds of each tree + preceding parses + four concurrent Pack calls, compared with each other and with the model. Session 3: pack-spelling lane compares the last Pack of a generated history with the same Pack in a FRESH PROCESS (child vh), which is what exposes package-level caches; overlapping package-level Pack calls with different options.",
     },
     "C20": {
         "lanes": [
@@ -85,7 +85,7 @@ PROPS = {
         ],
         "trusted_base": [STDLIB, "net/url, terraform-registry-address, terraform-svchost (IDNA) and go-versions are parameters: on the lane the model receives the real library's answers as an oracle table for exactly the strings it asks about; URL printing (URL.String) is not modelled, so the print/parse round trip of remote addresses is established by the lane's oracle on real values, not by a theorem"],
         "assumptions": ["open findings F17, F18, F33-F36 (sub-paths that URL escaping rewrites, RawPath or fragment or trailing-slash package path combined with a sub-path, constructor inputs the parsers never produce, '@'/newline in a final registry sub-path) are reported as KNOWN-FINDING by mechanism"],
-        "explanation": "Props/C06r (registry addresses, under explicit laws about the external parsers — RegLaws/VerLaws: a printed package/version parses to itself and has no '?', '//', trailing ':' etc.): C06_registry_roundtrip_partial, C06_registry_print_canonical, C06_registry_print_inj (two registry addresses are equal exactly when they print the same), C06_matchFinal_spec (the hand-written matcher is exactly the pattern's leftmost-greedy semantics: soundness, completeness, maximality), C06_final_registry_roundtrip_partial (incl. the 'pkg//' quirk for an empty sub-path), C06_dispatch_registry / C06_dispatch_final_registry (ParseSource / ParseFinalSource hand printed registry addresses to the registry parser), C19_registry_no_panic_partial; counterexamples C06_cex_final_sub_at / _newline (F36), C06_cex_registry_sub_trailing_space (F42), C06_cex_registry_sub_query. Registry.lean models ParseRegistrySource / ParseFinalRegistrySource (incl. the hand-written matcher for the pattern ^(.+)@([^/]+)(//(.+))?$), their String methods and the dispatch of ParseSource / ParseFinalSource, with regaddr.ParseModuleSource and versions.ParseVersion as oracle parameters; the 'registry' lane asks the model which strings it needs parsed, answers with the real libraries and compares results and dispatch. C06_local_roundtrip, C06_local_resolve_canonical / _roundtrip (the repaired local resolution always yields a canonical, re-parseable local address: F16), C06_subpath_split_roundtrip_partial / _url (printing pkg//sub?query splits back; counterexamples C06_cex_split_* for the excluded shapes), C06_normalize_idem. Tie: 'addr' lane compares ParseRemoteSource / MakeRemoteSource / ParseLocalSource / ValidSubPath with the model (front end + URL record from the real net/url) and applies the round-trip oracle Parse(String(x)) == x to every accepted and every derived value (relative resolution, Versioned, FinalSourceAddr, SourceAddr), plus 'equal iff prints the same'.",
+        "explanation": "Props/C06r (registry addresses, under explicit laws about the external parsers — RegLaws/VerLaws: a printed package/version parses to itself and has no '?', '//', trailing ':' etc.): C06_registry_roundtrip_partial, C06_registry_print_canonical, C06_registry_print_inj (two registry addresses are equal exactly when they print the same), C06_matchFinal_spec (the hand-written matcher is exactly the pattern's leftmost-greedy semantics: soundness, completeness, maximality), C06_final_registry_roundtrip_partial (incl. the 'pkg//' quirk for an empty sub-path), C06_dispatch_registry / C06_dispatch_final_registry (ParseSource / ParseFinalSource hand printed registry addresses to the registry parser), C19_registry_no_panic_partial; counterexamples C06_cex_final_sub_at / _newline (F36), C06_cex_registry_sub_trailing_space (F42), C06_cex_registry_sub_query. Registry.lean models ParseRegistrySource / ParseFinalRegistrySource (incl. the hand-written matcher for the pattern ^(.+)@([^/]+)(//(.+))?$), their String methods and the dispatch of ParseSource / ParseFinalSource, with regaddr.ParseModuleSource and versions.ParseVersion as oracle parameters; the 'registry' lane asks the model which strings it needs parsed, answers with the real libraries and compares results and dispatch. C06_local_roundtrip, C06_local_resolve_canonical / _roundtrip (the repaired local resolution always yields a canonical, re-parseable local address: F16), C06_subpath_split_roundtrip_partial / _url (printing pkg//sub?query splits back; counterexamples C06_cex_split_* for the excluded shapes), C06_normalize_idem. Tie: 'addr' lane compares ParseRemoteSource / MakeRemoteSource / ParseLocalSource / ValidSubPath with the model (front end + URL record from the real net/url) and applies the round-trip oracle Parse(String(x)) == x to every accepted and every derived value (relative resolution, Versioned, FinalSourceAddr, SourceAddr), plus 'equal iff prints the same'. Session 3: Props/C06t — splitSubPath, ParseLocalSource, looksLikeLocalSource, normalizeSubpath of the model equal the Lean translations of the Go functions (regenerated on every run).",
     },
     "C07": {
         "lanes": [
@@ -93,7 +93,7 @@ PROPS = {
         ],
         "trusted_base": ["net/url is a parameter of the model (every policy check is made on what the URL parser returned, so soundness holds for ANY parser function)", "tables regenerated from the source on every run: source types, git schemes and query keys, archive values and suffixes, shorthand prefixes, whether MakeRemoteSource checks user info (Generated/Remote.lean)"],
         "assumptions": ["completeness ('every documented-valid address is accepted') is proved at the level of the URL record (C07_complete_partial); that url.Parse produces such a record for the documented grammar is checked by the lane's valid-grammar stream"],
-        "explanation": "C07_sound_parse (for any URL parser and any string, an accepted address satisfies the declarative Policy and carries no user info), C07_sound_make (constructor route), C07_case (type and scheme are lower-cased before lookup), C07_complete_partial / C07_complete_parse_partial, C07_front_shorthand (github.com / gitlab.com expansion). Tie: 'addr' lane: field-wise comparison of accepted values with the model + independent Go policy predicate on every accepted value of every route.",
+        "explanation": "C07_sound_parse (for any URL parser and any string, an accepted address satisfies the declarative Policy and carries no user info), C07_sound_make (constructor route), C07_case (type and scheme are lower-cased before lookup), C07_complete_partial / C07_complete_parse_partial, C07_front_shorthand (github.com / gitlab.com expansion). Tie: 'addr' lane: field-wise comparison of accepted values with the model + independent Go policy predicate on every accepted value of every route. Session 3: Props/C07t — normalizeSubpath and splitSubPath of the model equal the Lean translations of the Go functions (regenerated on every run).",
     },
     "C18": {
         "lanes": [
@@ -101,16 +101,17 @@ PROPS = {
         ],
         "trusted_base": [STDLIB, "address/version/registry-package parsers are parameters of the model (BundleOracle); on the lane the real parsers answer for exactly the strings in the manifest; encoding/json as an identity on the manifest structure"],
         "assumptions": ["the bundle root is an absolute clean path; sub-paths handed to lookups are valid sub-paths (the address types guarantee it: C19_normalize_valid)"],
-        "explanation": "C18_refuse (a package directory named '', '.', '..' or containing a separator makes OpenDir fail, whatever the parsers say), C18_dirs_valid, C18_inside / C18_inside_registry (every lookup of an opened bundle lies strictly inside the root; component-level form C18_inside_segs), C18_roundtrip / C18_roundtrip_back / C18_alias_same_path (path -> (directory, sub-path) -> path is the identity, for any alias), C18_not_in_bundle*; Props/C18b: C18_reverse_order_free (the reverse lookup does not depend on the stored order of the table = map iteration order), C18_pick_min / C18_pick_perm, C18_addrBefore_strict_total, C18_reverse_sound, C18_reverse_roundtrip_addr, C18_reverse_total. Tie: 'bundle' lane: OpenDir on generated and mutated manifests, every lookup and SourceForLocalPath over 14 path shapes, compared with the model and the containment/inversion oracle.",
+        "explanation": "C18_refuse (a package directory named '', '.', '..' or containing a separator makes OpenDir fail, whatever the parsers say), C18_dirs_valid, C18_inside / C18_inside_registry (every lookup of an opened bundle lies strictly inside the root; component-level form C18_inside_segs), C18_roundtrip / C18_roundtrip_back / C18_alias_same_path (path -> (directory, sub-path) -> path is the identity, for any alias), C18_not_in_bundle*; Props/C18b: C18_reverse_order_free (the reverse lookup does not depend on the stored order of the table = map iteration order), C18_pick_min / C18_pick_perm, C18_addrBefore_strict_total, C18_reverse_sound, C18_reverse_roundtrip_addr, C18_reverse_total. Tie: 'bundle' lane: OpenDir on generated and mutated manifests, every lookup and SourceForLocalPath over 14 path shapes, compared with the model and the containment/inversion oracle. Session 3: lookups of addresses derived through ResolveRelative(Final)Source with up to eight leading '../' from the bundle's own registry and remote sources: refused, or strictly inside the bundle root.",
     },
     "C09": {
         "lanes": [
+            {"lane": "bundle-roundtrip", "quick": 20, "thorough": 300, "umask": "077"},   # extraction under a stricter umask gives the same files (oracle only)
             {"lane": "bundle-roundtrip", "quick": 120, "thorough": 3000},
             {"lane": "bundle", "quick": 1000, "thorough": 20000},
         ],
         "trusted_base": [BUILDERMODEL, FSMODEL, "encoding/json as an identity on the manifest structure; the archive round trip is Pack(dereference) followed by Unpack, whose models are tied by the pack/unpack lanes (C02, C15); ChecksumV1 is a function of the manifest bytes, which the lane compares"],
         "assumptions": ["metadata strings are valid UTF-8 (JSON replaces invalid bytes); a commit message stored with an empty commit id is not kept (C09_cex_meta_dropped: the manifest keeps metadata only with a commit id)"],
-        "explanation": "Props/C09s (the manifest as actually written, rows sorted): C09_reopen_sorted (for every run, opening manifestSorted of the final state succeeds and reproduces the tables; hypotheses on the environment only), C09_reopen_sorted_partial, C09_openDir_perm (opening is insensitive to row order when keys are distinct; C09_cex_perm_needs_distinct / C09_cex_regs_needs_distinct show the key hypothesis is needed), C09_lookups_same_sorted (all lookups incl. the reverse lookup agree). C09_reopen_partial / C09_reopen_tables_partial: opening the manifest written from the builder's final tables yields exactly those tables (package -> directory, metadata with a commit id, resolved versions -> source address, deprecations), for parsers that read printed keys back (C06) and distinct keys (each package is fetched once: C14). Counterexamples C09_cex_meta_dropped, C09_cex_shadowed. Tie: 'bundle-roundtrip' lane re-opens every finished bundle and archives + extracts it elsewhere, comparing all accessors, checksum, root-relative lookups and the recursive tree listing.",
+        "explanation": "Props/C09s (the manifest as actually written, rows sorted): C09_reopen_sorted (for every run, opening manifestSorted of the final state succeeds and reproduces the tables; hypotheses on the environment only), C09_reopen_sorted_partial, C09_openDir_perm (opening is insensitive to row order when keys are distinct; C09_cex_perm_needs_distinct / C09_cex_regs_needs_distinct show the key hypothesis is needed), C09_lookups_same_sorted (all lookups incl. the reverse lookup agree). C09_reopen_partial / C09_reopen_tables_partial: opening the manifest written from the builder's final tables yields exactly those tables (package -> directory, metadata with a commit id, resolved versions -> source address, deprecations), for parsers that read printed keys back (C06) and distinct keys (each package is fetched once: C14). Counterexamples C09_cex_meta_dropped, C09_cex_shadowed. Tie: 'bundle-roundtrip' lane re-opens every finished bundle and archives + extracts it elsewhere, comparing all accessors, checksum, root-relative lookups and the recursive tree listing. Session 3: Props/C09a (archive half) — C09_archive_files_partial: extracting the archive WriteArchive produces from a bundle directory (tidy relative links) into an empty directory yields exactly the bundle's files, directories and links (permission bits, contents, targets, times to the second); C09_archive_deref_irrelevant (the DereferenceSymlinks option changes nothing when every link is accepted); C09_archive_manifest_same + C09_openDir_root (same manifest bytes, hence the same opened bundle up to its root). bundle-roundtrip lane also under umask 077 (oracle only).",
     },
     "C19": {
         "lanes": [
@@ -124,7 +125,7 @@ PROPS = {
         ],
         "trusted_base": [STDLIB, FSMODEL, "stack exhaustion and blocking system calls are runtime events the model cannot exhibit: the model shows the divergence (fuel) or the open of a non-regular file, the watched-subprocess lane shows the crash or hang (partial)"],
         "assumptions": ["C19_pack_terminates assumes PackNamesOK (every component of every path in the tree is a proper file name: non-empty, no slash, not '.' or '..' — what a real directory can contain; C19_cex_terminates_needs_names shows the model needs it) and an absolute start path; findings F25 (link cycle outside the tree), F26 (dereferenced directory containing itself) and F27 (dereferenced link to a fifo) are repaired in /repo and listed as fixed"],
-        "explanation": "C19_split_idem (the 'post-split registry address still has subdir' panic is unreachable), C19_normalize_valid / C19_joinSubPath_valid / C19_finalSourceSub_valid (sub-paths stored in addresses are always valid, so the panicking SourceAddr is never reached with an invalid one), C12/C15 loop theorems give termination of Unpack (one step per entry), C14_terminates for the builder; Props/C19p: C19_pack_terminates (the Pack walk, including nested walks into dereferenced directories, returns for every finite tree with well-formed names, any options and any visiting list, within an explicit fuel bound pkTermBound fs; measure: directories not yet on the visiting stack, then depth below the walk root), C19_pack_fuel_irrelevant, C19_pack_never_diverges, C19_visiting_grows, C19_pack_deref_cycle_is_error / C19_pack_deref_ancestor_cycle_is_error (cycles are errors) and C19_pack_deref_twice_is_ok (the visiting list is a stack, not a global visited set), C19_resolveExternalLink_never_diverges, C19_link_cycle_is_error, C19_deref_special_skipped; parsing of rule files is total in the model (readRules has no partial operation after the F7 repair). Tie: all lanes report panics/timeouts; the 'robust' lane runs each hostile case (link cycles, self-containing dereferenced directories, fifos, mutated tar streams with repaired checksums, mutated manifests, mutated address strings) in a watched worker process.",
+        "explanation": "C19_split_idem (the 'post-split registry address still has subdir' panic is unreachable), C19_normalize_valid / C19_joinSubPath_valid / C19_finalSourceSub_valid (sub-paths stored in addresses are always valid, so the panicking SourceAddr is never reached with an invalid one), C12/C15 loop theorems give termination of Unpack (one step per entry), C14_terminates for the builder; Props/C19p: C19_pack_terminates (the Pack walk, including nested walks into dereferenced directories, returns for every finite tree with well-formed names, any options and any visiting list, within an explicit fuel bound pkTermBound fs; measure: directories not yet on the visiting stack, then depth below the walk root), C19_pack_fuel_irrelevant, C19_pack_never_diverges, C19_visiting_grows, C19_pack_deref_cycle_is_error / C19_pack_deref_ancestor_cycle_is_error (cycles are errors) and C19_pack_deref_twice_is_ok (the visiting list is a stack, not a global visited set), C19_resolveExternalLink_never_diverges, C19_link_cycle_is_error, C19_deref_special_skipped; parsing of rule files is total in the model (readRules has no partial operation after the F7 repair). Tie: all lanes report panics/timeouts; the 'robust' lane runs each hostile case (link cycles, self-containing dereferenced directories, fifos, mutated tar streams with repaired checksums, mutated manifests, mutated address strings) in a watched worker process. Session 3: Props/C19t — every slice position splitSubPath computes lies inside the string (C19_tie_splitSubPath_slices_in_range), for the translated function.",
     },
     "C08": {
         "lanes": [
@@ -132,16 +133,16 @@ PROPS = {
         ],
         "trusted_base": [BUILDERMODEL],
         "assumptions": ["lookups (LocalPathFor*) and the content of package directories are checked by the lane's oracle against the scripted world; the model's final tables are compared with the bundle's accessors"],
-        "explanation": "C08_closure (error-free run: every artefact of the order-free reachability closure Reach is analysed and its package stored under its fetched content), C08_sound (every analysed artefact is reachable, for any run), C08_exact, C08_nothing_pending, C08_registry_same_place / C08_registry_lookup (a registry source is queued as the registry's answer joined with the caller's sub-path), C08_meta_kept; Props/C08b: C08_tables_wellkept (distinct keys in pkgDirs/resolved, metadata only for fetched packages, deprecation recorded exactly with a resolved version — every run), C08_reopen (manifest of the final tables opens to the same tables, hypotheses on the environment only), C08_lookup_remote / C08_lookup_registry / C08_lookup_sound / C08_lookup_meta / C08_lookup_deprec (lookups on the re-opened bundle answer root/content/sub inside root), C08_reach_validSub, C08_cex_sub_escapes (why normalised sub-paths are assumed). Tie: 'builder' lane: full call-log and final-table comparison; oracle = reference closure computed in Go from the scripted world + every lookup + file contents + metadata.",
+        "explanation": "C08_closure (error-free run: every artefact of the order-free reachability closure Reach is analysed and its package stored under its fetched content), C08_sound (every analysed artefact is reachable, for any run), C08_exact, C08_nothing_pending, C08_registry_same_place / C08_registry_lookup (a registry source is queued as the registry's answer joined with the caller's sub-path), C08_meta_kept; Props/C08b: C08_tables_wellkept (distinct keys in pkgDirs/resolved, metadata only for fetched packages, deprecation recorded exactly with a resolved version — every run), C08_reopen (manifest of the final tables opens to the same tables, hypotheses on the environment only), C08_lookup_remote / C08_lookup_registry / C08_lookup_sound / C08_lookup_meta / C08_lookup_deprec (lookups on the re-opened bundle answer root/content/sub inside root), C08_reach_validSub, C08_cex_sub_escapes (why normalised sub-paths are assumed). Tie: 'builder' lane: full call-log and final-table comparison; oracle = reference closure computed in Go from the scripted world + every lookup + file contents + metadata. Session 3: a share of the remote addresses the builder lane adds and lets finders report is built with MakeRemoteSource from oddly spelled URLs (raw space, '|', non-ASCII, quote) and looked up with that same value in the finished and the re-opened bundle.",
     },
     "C13": {
         "lanes": [
             {"lane": "builder-order", "quick": 60, "thorough": 1500},
-            {"lane": "builder-order", "thorough": 40, "race": True},
+            {"lane": "builder-order", "quick": 6, "thorough": 40, "race": True},   # race detector: the concrete interleaving when the lock facts break
         ],
         "trusted_base": [BUILDERMODEL, "encoding/json + sort: the manifest is a function of the final tables (sections sorted by printed address); checked by byte comparison on the lane, not modelled"],
         "assumptions": ["interleavings below the granularity of the builder's mutex (Go memory model) cannot be exhibited by the model: covered by the supporting -race run in the thorough tier only (partial)"],
-        "explanation": "C13_order (permuting the Add calls of an error-free build leaves analysed set, package directories, metadata, resolved versions and deprecations unchanged), C13_clean_same / C13_clean_order (error-freeness itself is order independent), C13_dirs_spec / C13_resolved_spec / C13_deprec_spec (order-free characterisation of each table), C13_coalesce (same directory iff same fetched content); Props/C13m: C13_manifest_written / C13_manifest_order (the sorted row sequence writeManifest produces is the same for every permutation of the calls), C13_sortStr_sorted / _perm / _canonical, C13_manifestSorted_rows (the sorted manifest has the rows of manifestOf). Tie: 'builder-order' lane builds every permutation (exhaustive up to 4 calls) and a concurrent run, compares manifest bytes, ChecksumV1 and directory listing, and compares each permutation with the model.",
+        "explanation": "C13_order (permuting the Add calls of an error-free build leaves analysed set, package directories, metadata, resolved versions and deprecations unchanged), C13_clean_same / C13_clean_order (error-freeness itself is order independent), C13_dirs_spec / C13_resolved_spec / C13_deprec_spec (order-free characterisation of each table), C13_coalesce (same directory iff same fetched content); Props/C13m: C13_manifest_written / C13_manifest_order (the sorted row sequence writeManifest produces is the same for every permutation of the calls), C13_sortStr_sorted / _perm / _canonical, C13_manifestSorted_rows (the sorted manifest has the rows of manifestOf). Tie: 'builder-order' lane builds every permutation (exhaustive up to 4 calls) and a concurrent run, compares manifest bytes, ChecksumV1 and directory listing, and compares each permutation with the model. Session 3: C13_resolvePending_holds_lock — extracted fact: resolvePending takes the lock once and releases it only in a deferred function (no Unlock around callbacks); lock facts for helper methods are computed from their call sites. The race-detector run of builder-order is part of the quick tier (6 worlds).",
     },
     "C14": {
         "lanes": [
@@ -159,19 +160,21 @@ PROPS = {
         ],
         "trusted_base": [BUILDERMODEL, "go-versions: the version order is the library's (ranks), assumed a strict weak order on the generated versions (single pre-release identifier; 0.0.0 excluded: it is the library's 'unspecified' sentinel)"],
         "assumptions": [],
-        "explanation": "C17_newest / C17_none_iff (selected = maximum rank among offered and allowed; none iff nothing allowed), C17_order_irrelevant (listing order), C17_cache_irrelevant(_fn) (answer is a function of world and request, whatever was resolved before), C17_final_exact, C17_none_error, C17_deprecation. Tie: 'builder' lane; oracle = brute-force maximum with the real LessThan/Has and the registry's own deprecation note.",
+        "explanation": "C17_newest / C17_none_iff (selected = maximum rank among offered and allowed; none iff nothing allowed), C17_order_irrelevant (listing order), C17_cache_irrelevant(_fn) (answer is a function of world and request, whatever was resolved before), C17_final_exact, C17_none_error, C17_deprecation. Tie: 'builder' lane; oracle = brute-force maximum with the real LessThan/Has and the registry's own deprecation note. Session 3: AddFinalRegistrySource with versions the registry does not list (below all, between two, above all, pre-releases): exactly that version or an error.",
     },
     "C15": {
         "lanes": [
+            {"lane": "unpack", "quick": 600, "thorough": 15000, "umask": "077"},   # recorded permission bits do not depend on the process umask (oracle only)
             {"lane": "unpack", "quick": 2500, "thorough": 60000},
             {"lane": "unpack", "quick": 1500, "thorough": 30000, "uid": 65534},
         ],
         "trusted_base": [STDLIB, FSMODEL],
         "assumptions": ["well-formed archives for the oracle: no entry passes through or lands on a link, no kind conflict on a path, names inside dst, link targets relative and staying inside (kind conflicts are outside the property's claim)"],
-        "explanation": "C15_unsupported_fails (a successful Unpack saw only representable entries), C15_unsupported_is_illegal, C15_empty_name_skipped, C15_dirs_restored_last (directory mode/mtime are applied after all entries, in archive order). The refinement to the sequential reading is established by correspondence: the 'unpack' lane compares the real destination tree with the model's filesystem and with an independent reference interpreter of the entry list.",
+        "explanation": "C15_unsupported_fails (a successful Unpack saw only representable entries), C15_unsupported_is_illegal, C15_empty_name_skipped, C15_dirs_restored_last (directory mode/mtime are applied after all entries, in archive order). The refinement to the sequential reading is established by correspondence: the 'unpack' lane compares the real destination tree with the model's filesystem and with an independent reference interpreter of the entry list. Session 3: archives with access/change times different from the mtime (PAX, GNU), edge mtimes, and a run of the unpack lane under umask 077 judged by the reference interpreter (explicit entries have their recorded bits whatever the umask; implicit parents 0755 &^ umask). Unprivileged runs skip archives in which a directory entry lacking the owner's search bit precedes a directory entry below it (directory permission checks are outside the filesystem model).",
     },
     "C03": {
         "lanes": [
+            {"lane": "pack-spelling", "quick": 40, "thorough": 600},   # fresh-process history oracle: what ships depends on the rule file alone
             {"lane": "ignore", "quick": 4000, "thorough": 120000},
             {"lane": "pack", "quick": 1500, "thorough": 40000},
             {"lane": "sanitise", "quick": 1500, "thorough": 40000},
@@ -180,7 +183,7 @@ PROPS = {
                          "Go regexp engine restricted to the five fragments compile emits (lit, [^/]*, [^/], (.*/)?, .*) is modelled by matchT; bufio.ScanLines, strings.TrimSpace modelled",
                          "facts regenerated from the source on every run: default rule table, escaped-character set, (?s) flag (Generated/Ignore.lean)"],
         "assumptions": ["patterns with '[', ']' or '\\' are outside the modelled fragment (the rule language leaves them unspecified); '**' glued to other characters in one segment is outside WFVal"],
-        "explanation": "C03_compile_sound: for every well-formed stored pattern and EVERY path string the compiled regexp tokens decide exactly the segment-wise glob; C03_last_match_wins; C03_defaults (exact characterisation of the built-in rules); C03_marking (negationsAfter invariant of parsing, incl. the early break); C03_prune_sound under TailClosed + C03_cex_prune_star_tail; Props/C03w (walk level): C03_pack_excluded_never_ships_any (any options incl. dereferencing; F43 repaired), C03_pack_ships_iff, C03_pack_filter, C03_pack_included_ships_partial, C03_pack_nofilter, C03_bundle_excluded_removed, C03_bundle_included_kept_partial, C03_cex_bundle_reinclude / C03_cex_bundle_default_modules / C03_cex_bundle_dir_pattern_fails (F9 and its variants). Tie: 'ignore' lane runs ParseIgnoreFileContent/Excludes next to the model and an independent Go segment-wise matcher.",
+        "explanation": "C03_compile_sound: for every well-formed stored pattern and EVERY path string the compiled regexp tokens decide exactly the segment-wise glob; C03_last_match_wins; C03_defaults (exact characterisation of the built-in rules); C03_marking (negationsAfter invariant of parsing, incl. the early break); C03_prune_sound under TailClosed + C03_cex_prune_star_tail; Props/C03w (walk level): C03_pack_excluded_never_ships_any (any options incl. dereferencing; F43 repaired), C03_pack_ships_iff, C03_pack_filter, C03_pack_included_ships_partial, C03_pack_nofilter, C03_bundle_excluded_removed, C03_bundle_included_kept_partial, C03_cex_bundle_reinclude / C03_cex_bundle_default_modules / C03_cex_bundle_dir_pattern_fails (F9 and its variants). Tie: 'ignore' lane runs ParseIgnoreFileContent/Excludes next to the model and an independent Go segment-wise matcher. Session 3: Props/C03t C03_tie_excludes — the model's excludes equals the Lean translation of Ruleset.Excludes regenerated from the Go source on every run (loop, last-match-wins assignments, dominating flag). Oracle-only corpus cases: rule files of more than 1 MiB and with a line of more than 64 KiB (F46, repaired) in the ignore, pack and sanitise lanes; the pack-spelling lane repeats the last Pack of a generated history (rule files replaced, deleted, re-created; shared pattern texts with and without later negations) in a fresh process and charges name-set differences to C03.",
     },
     "C10": {
         "lanes": [
@@ -198,7 +201,7 @@ PROPS = {
         "trusted_base": [STDLIB,
                          "package parts of addresses are opaque in this slice (URL/registry parsing is not involved in resolution)"],
         "assumptions": ["relative arguments reach the resolution functions only as LocalSource values (non-empty, not rooted)"],
-        "explanation": "C11_join_spec/C11_resolve_spec: joinSubPath = failing segment stack for every valid base sub-path and every relative path (all depths); C11_never_escapes; C11_same_kind; C11_abs_unchanged. Tie: 'resolve' lane runs ResolveRelativeSource/ResolveRelativeFinalSource/FinalSourceAddr next to the model and a Go segment-stack reference.",
+        "explanation": "C11_join_spec/C11_resolve_spec: joinSubPath = failing segment stack for every valid base sub-path and every relative path (all depths); C11_never_escapes; C11_same_kind; C11_abs_unchanged. Tie: 'resolve' lane runs ResolveRelativeSource/ResolveRelativeFinalSource/FinalSourceAddr next to the model and a Go segment-stack reference. Session 3: Props/C11t — joinSubPath and normalizeSubpath of the model equal the Lean translations of the Go functions (regenerated on every run). resolve lane: final registry bases with build metadata / pre-release versions; the final route must keep package and selected version.",
     },
 }
 
@@ -224,7 +227,7 @@ _NEIGHBOURS = {
     "C19": _PACK + _UNPACK + _ADDR + _BUNDLE + [("builder", 300, 8000)], "C20": _PACK,
 }
 for _p, _ls in _NEIGHBOURS.items():
-    _have = {l["lane"] for l in PROPS[_p]["lanes"] if not l.get("uid") and not l.get("race")}
+    _have = {l["lane"] for l in PROPS[_p]["lanes"] if not l.get("uid") and not l.get("race") and not l.get("umask")}
     for _name, _q, _t in _ls:
         if _name not in _have:
             PROPS[_p]["lanes"].append({"lane": _name, "quick": _q, "thorough": _t, "neighbour": True})
